@@ -31,10 +31,51 @@ var lexFragments = []string{
 	"\x00", "\x01", "\x7f", "\x80", "\xff", "é", "✓", "😀", "@", "#", "~", "^", "?",
 }
 
+// longLiteralUnits: escape units (and raw multi-byte characters) whose scanned form has several
+// bytes; longLiterals places each of them at every offset around a power-of-two boundary of
+// the literal, so that a scanner that accumulates the literal in fixed-size chunks is exercised
+// at the chunk borders (seeded change C07-literal-buffer-boundary).
+var longLiteralUnits = []string{`\xe9`, `\u00e9`, `\u20AC`, `\u{1F600}`, `\ud83d\ude00`, `\u{00005c}`, `\u2028`, "é", "€", "😀", "\\\n", `\n\t`}
+
+func longLiterals(q string, boundaries []int) []string {
+	var out []string
+	for _, b := range boundaries {
+		for _, u := range longLiteralUnits {
+			for d := 0; d < 8; d++ {
+				out = append(out, q+strings.Repeat("a", b-d)+u+"z"+q)
+			}
+		}
+	}
+	return out
+}
+
 func genLex(r *rng, n int, tier string) []string {
 	var out []string
 	for _, f := range lexFragments {
 		out = append(out, hx(f))
+	}
+	for i, l := range longLiterals(`"`, []int{32, 64, 128, 256, 512}) {
+		if i%2 == 1 {
+			l = "'" + l[1:len(l)-1] + "'"
+		}
+		out = append(out, hx("x="+l+";"))
+	}
+	for i := 0; i < 40; i++ { // long random literals (100..900 bytes)
+		var b strings.Builder
+		q := pick(r, []string{`"`, "'", "`"})
+		b.WriteString(q)
+		for m := 100 + r.intn(800); b.Len() < m; {
+			switch r.intn(4) {
+			case 0:
+				b.WriteString(pick(r, longLiteralUnits))
+			case 1:
+				b.WriteString(pick(r, []string{`\x41`, `\0`, `\\`, `\q`, " ", "\t"}))
+			default:
+				b.WriteString(strings.Repeat(pick(r, []string{"a", "b", "0", " "}), 1+r.intn(40)))
+			}
+		}
+		b.WriteString(q)
+		out = append(out, hx(b.String()))
 	}
 	for i := 0; i < n; i++ {
 		var b strings.Builder
